@@ -1,0 +1,479 @@
+//! Verification-only container models.
+//!
+//! Compiled only under `cfg(kani)` / `cfg(netflow_parser_verif)`; never part of a normal
+//! build.  `VMap` is a sorted association list with the observable semantics of
+//! `BTreeMap`/`HashMap` (unique keys, insert overwrites, ordered iteration), `VSet` the
+//! same for `HashSet`/`BTreeSet`.  Bounded model checkers cannot reason about the std
+//! containers (B-tree node navigation, SipHash with random keys), so the verification
+//! build swaps them for these.
+use serde::ser::{Serialize, SerializeMap, SerializeSeq, Serializer};
+
+#[derive(Debug, Clone, PartialEq, Eq, PartialOrd, Ord, Hash)]
+pub struct VMap<K, V> {
+    pub items: Vec<(K, V)>,
+}
+
+impl<K, V> Default for VMap<K, V> {
+    fn default() -> Self {
+        VMap { items: Vec::new() }
+    }
+}
+
+pub enum Entry<'a, K, V> {
+    Occupied(OccupiedEntry<'a, K, V>),
+    Vacant(VacantEntry<'a, K, V>),
+}
+
+pub struct OccupiedEntry<'a, K, V> {
+    map: &'a mut VMap<K, V>,
+    idx: usize,
+}
+
+pub struct VacantEntry<'a, K, V> {
+    map: &'a mut VMap<K, V>,
+    idx: usize,
+    key: K,
+}
+
+impl<'a, K: Ord, V> OccupiedEntry<'a, K, V> {
+    pub fn key(&self) -> &K {
+        &self.map.items[self.idx].0
+    }
+    pub fn get(&self) -> &V {
+        &self.map.items[self.idx].1
+    }
+    pub fn get_mut(&mut self) -> &mut V {
+        &mut self.map.items[self.idx].1
+    }
+    pub fn into_mut(self) -> &'a mut V {
+        &mut self.map.items[self.idx].1
+    }
+    pub fn insert(&mut self, v: V) -> V {
+        core::mem::replace(&mut self.map.items[self.idx].1, v)
+    }
+    pub fn remove(self) -> V {
+        self.map.items.remove(self.idx).1
+    }
+}
+
+impl<'a, K: Ord, V> VacantEntry<'a, K, V> {
+    pub fn key(&self) -> &K {
+        &self.key
+    }
+    pub fn insert(self, v: V) -> &'a mut V {
+        let idx = self.idx;
+        if idx == self.map.items.len() {
+            self.map.items.push((self.key, v));
+        } else {
+            self.map.items.insert(idx, (self.key, v));
+        }
+        &mut self.map.items[idx].1
+    }
+}
+
+impl<'a, K: Ord, V> Entry<'a, K, V> {
+    pub fn or_insert(self, default: V) -> &'a mut V {
+        match self {
+            Entry::Occupied(o) => o.into_mut(),
+            Entry::Vacant(v) => v.insert(default),
+        }
+    }
+    pub fn or_insert_with<F: FnOnce() -> V>(self, f: F) -> &'a mut V {
+        match self {
+            Entry::Occupied(o) => o.into_mut(),
+            Entry::Vacant(v) => v.insert(f()),
+        }
+    }
+    pub fn or_default(self) -> &'a mut V
+    where
+        V: Default,
+    {
+        self.or_insert_with(V::default)
+    }
+    pub fn and_modify<F: FnOnce(&mut V)>(mut self, f: F) -> Self {
+        if let Entry::Occupied(o) = &mut self {
+            f(o.get_mut());
+        }
+        self
+    }
+    pub fn key(&self) -> &K {
+        match self {
+            Entry::Occupied(o) => o.key(),
+            Entry::Vacant(v) => v.key(),
+        }
+    }
+}
+
+impl<K: Ord, V> VMap<K, V> {
+    pub fn new() -> Self {
+        VMap { items: Vec::new() }
+    }
+    pub fn with_capacity(_n: usize) -> Self {
+        VMap { items: Vec::new() }
+    }
+    pub fn len(&self) -> usize {
+        self.items.len()
+    }
+    pub fn is_empty(&self) -> bool {
+        self.items.is_empty()
+    }
+    fn pos<Q: ?Sized + Ord>(&self, k: &Q) -> Result<usize, usize>
+    where
+        K: core::borrow::Borrow<Q>,
+    {
+        let mut i = 0;
+        while i < self.items.len() {
+            let ki: &Q = self.items[i].0.borrow();
+            if ki == k {
+                return Ok(i);
+            }
+            if ki > k {
+                return Err(i);
+            }
+            i += 1;
+        }
+        Err(i)
+    }
+    pub fn get<Q: ?Sized + Ord>(&self, k: &Q) -> Option<&V>
+    where
+        K: core::borrow::Borrow<Q>,
+    {
+        match self.pos(k) {
+            Ok(i) => Some(&self.items[i].1),
+            Err(_) => None,
+        }
+    }
+    pub fn get_key_value<Q: ?Sized + Ord>(&self, k: &Q) -> Option<(&K, &V)>
+    where
+        K: core::borrow::Borrow<Q>,
+    {
+        match self.pos(k) {
+            Ok(i) => Some((&self.items[i].0, &self.items[i].1)),
+            Err(_) => None,
+        }
+    }
+    pub fn get_mut<Q: ?Sized + Ord>(&mut self, k: &Q) -> Option<&mut V>
+    where
+        K: core::borrow::Borrow<Q>,
+    {
+        match self.pos(k) {
+            Ok(i) => Some(&mut self.items[i].1),
+            Err(_) => None,
+        }
+    }
+    pub fn contains_key<Q: ?Sized + Ord>(&self, k: &Q) -> bool
+    where
+        K: core::borrow::Borrow<Q>,
+    {
+        self.pos(k).is_ok()
+    }
+    pub fn insert(&mut self, k: K, v: V) -> Option<V> {
+        match self.pos(&k) {
+            Ok(i) => Some(core::mem::replace(&mut self.items[i].1, v)),
+            Err(i) => {
+                if i == self.items.len() {
+                    self.items.push((k, v));
+                } else {
+                    self.items.insert(i, (k, v));
+                }
+                None
+            }
+        }
+    }
+    pub fn entry(&mut self, k: K) -> Entry<'_, K, V> {
+        match self.pos(&k) {
+            Ok(idx) => Entry::Occupied(OccupiedEntry { map: self, idx }),
+            Err(idx) => Entry::Vacant(VacantEntry {
+                map: self,
+                idx,
+                key: k,
+            }),
+        }
+    }
+    pub fn remove<Q: ?Sized + Ord>(&mut self, k: &Q) -> Option<V>
+    where
+        K: core::borrow::Borrow<Q>,
+    {
+        match self.pos(k) {
+            Ok(i) => Some(self.items.remove(i).1),
+            Err(_) => None,
+        }
+    }
+    pub fn remove_entry<Q: ?Sized + Ord>(&mut self, k: &Q) -> Option<(K, V)>
+    where
+        K: core::borrow::Borrow<Q>,
+    {
+        match self.pos(k) {
+            Ok(i) => Some(self.items.remove(i)),
+            Err(_) => None,
+        }
+    }
+    pub fn retain<F: FnMut(&K, &mut V) -> bool>(&mut self, mut f: F) {
+        self.items.retain_mut(|(k, v)| f(k, v));
+    }
+    pub fn clear(&mut self) {
+        self.items.clear()
+    }
+    pub fn append(&mut self, other: &mut Self) {
+        for (k, v) in other.items.drain(..) {
+            self.insert(k, v);
+        }
+    }
+    pub fn first_key_value(&self) -> Option<(&K, &V)> {
+        self.items.first().map(|(k, v)| (k, v))
+    }
+    pub fn last_key_value(&self) -> Option<(&K, &V)> {
+        self.items.last().map(|(k, v)| (k, v))
+    }
+    pub fn pop_first(&mut self) -> Option<(K, V)> {
+        if self.items.is_empty() {
+            None
+        } else {
+            Some(self.items.remove(0))
+        }
+    }
+    pub fn pop_last(&mut self) -> Option<(K, V)> {
+        self.items.pop()
+    }
+    pub fn iter(&self) -> impl DoubleEndedIterator<Item = (&K, &V)> + ExactSizeIterator {
+        self.items.iter().map(|(k, v)| (k, v))
+    }
+    pub fn iter_mut(&mut self) -> impl DoubleEndedIterator<Item = (&K, &mut V)> {
+        self.items.iter_mut().map(|(k, v)| (&*k, v))
+    }
+    pub fn keys(&self) -> impl DoubleEndedIterator<Item = &K> + ExactSizeIterator {
+        self.items.iter().map(|(k, _)| k)
+    }
+    pub fn values(&self) -> impl DoubleEndedIterator<Item = &V> + ExactSizeIterator {
+        self.items.iter().map(|(_, v)| v)
+    }
+    pub fn values_mut(&mut self) -> impl DoubleEndedIterator<Item = &mut V> {
+        self.items.iter_mut().map(|(_, v)| v)
+    }
+    pub fn into_keys(self) -> impl Iterator<Item = K> {
+        self.items.into_iter().map(|(k, _)| k)
+    }
+    pub fn into_values(self) -> impl Iterator<Item = V> {
+        self.items.into_iter().map(|(_, v)| v)
+    }
+    pub fn reserve(&mut self, _n: usize) {}
+    pub fn shrink_to_fit(&mut self) {}
+}
+
+impl<K: Ord, V, Q: ?Sized + Ord> core::ops::Index<&Q> for VMap<K, V>
+where
+    K: core::borrow::Borrow<Q>,
+{
+    type Output = V;
+    fn index(&self, k: &Q) -> &V {
+        self.get(k).expect("no entry found for key")
+    }
+}
+
+impl<K, V> IntoIterator for VMap<K, V> {
+    type Item = (K, V);
+    type IntoIter = std::vec::IntoIter<(K, V)>;
+    fn into_iter(self) -> Self::IntoIter {
+        self.items.into_iter()
+    }
+}
+
+impl<'a, K, V> IntoIterator for &'a VMap<K, V> {
+    type Item = (&'a K, &'a V);
+    type IntoIter = core::iter::Map<core::slice::Iter<'a, (K, V)>, fn(&'a (K, V)) -> (&'a K, &'a V)>;
+    fn into_iter(self) -> Self::IntoIter {
+        fn split<K, V>(kv: &(K, V)) -> (&K, &V) {
+            (&kv.0, &kv.1)
+        }
+        self.items.iter().map(split as fn(&'a (K, V)) -> (&'a K, &'a V))
+    }
+}
+
+impl<K: Ord, V> Extend<(K, V)> for VMap<K, V> {
+    fn extend<T: IntoIterator<Item = (K, V)>>(&mut self, iter: T) {
+        for (k, v) in iter {
+            self.insert(k, v);
+        }
+    }
+}
+
+impl<K: Ord, V> FromIterator<(K, V)> for VMap<K, V> {
+    fn from_iter<T: IntoIterator<Item = (K, V)>>(iter: T) -> Self {
+        let mut m = VMap::new();
+        m.extend(iter);
+        m
+    }
+}
+
+impl<K: Ord, V, const N: usize> From<[(K, V); N]> for VMap<K, V> {
+    fn from(a: [(K, V); N]) -> Self {
+        a.into_iter().collect()
+    }
+}
+
+impl<K: Serialize, V: Serialize> Serialize for VMap<K, V> {
+    fn serialize<S: Serializer>(&self, s: S) -> Result<S::Ok, S::Error> {
+        let mut m = s.serialize_map(Some(self.items.len()))?;
+        for (k, v) in &self.items {
+            m.serialize_entry(k, v)?;
+        }
+        m.end()
+    }
+}
+
+#[derive(Debug, Clone, PartialEq, Eq, PartialOrd, Ord, Hash)]
+pub struct VSet<T> {
+    pub items: Vec<T>,
+}
+
+impl<T> Default for VSet<T> {
+    fn default() -> Self {
+        VSet { items: Vec::new() }
+    }
+}
+
+impl<T: Ord> VSet<T> {
+    pub fn new() -> Self {
+        VSet { items: Vec::new() }
+    }
+    pub fn with_capacity(_n: usize) -> Self {
+        VSet { items: Vec::new() }
+    }
+    pub fn len(&self) -> usize {
+        self.items.len()
+    }
+    pub fn is_empty(&self) -> bool {
+        self.items.is_empty()
+    }
+    fn pos<Q: ?Sized + Ord>(&self, t: &Q) -> Result<usize, usize>
+    where
+        T: core::borrow::Borrow<Q>,
+    {
+        let mut i = 0;
+        while i < self.items.len() {
+            let ti: &Q = self.items[i].borrow();
+            if ti == t {
+                return Ok(i);
+            }
+            if ti > t {
+                return Err(i);
+            }
+            i += 1;
+        }
+        Err(i)
+    }
+    pub fn contains<Q: ?Sized + Ord>(&self, t: &Q) -> bool
+    where
+        T: core::borrow::Borrow<Q>,
+    {
+        self.pos(t).is_ok()
+    }
+    pub fn get<Q: ?Sized + Ord>(&self, t: &Q) -> Option<&T>
+    where
+        T: core::borrow::Borrow<Q>,
+    {
+        match self.pos(t) {
+            Ok(i) => Some(&self.items[i]),
+            Err(_) => None,
+        }
+    }
+    pub fn insert(&mut self, t: T) -> bool {
+        match self.pos(&t) {
+            Ok(_) => false,
+            Err(i) => {
+                if i == self.items.len() {
+                    self.items.push(t);
+                } else {
+                    self.items.insert(i, t);
+                }
+                true
+            }
+        }
+    }
+    pub fn remove<Q: ?Sized + Ord>(&mut self, t: &Q) -> bool
+    where
+        T: core::borrow::Borrow<Q>,
+    {
+        match self.pos(t) {
+            Ok(i) => {
+                self.items.remove(i);
+                true
+            }
+            Err(_) => false,
+        }
+    }
+    pub fn retain<F: FnMut(&T) -> bool>(&mut self, f: F) {
+        self.items.retain(f);
+    }
+    pub fn clear(&mut self) {
+        self.items.clear()
+    }
+    pub fn iter(&self) -> impl DoubleEndedIterator<Item = &T> + ExactSizeIterator {
+        self.items.iter()
+    }
+    pub fn first(&self) -> Option<&T> {
+        self.items.first()
+    }
+    pub fn last(&self) -> Option<&T> {
+        self.items.last()
+    }
+    pub fn is_subset(&self, other: &Self) -> bool {
+        self.items.iter().all(|t| other.contains(t))
+    }
+    pub fn is_superset(&self, other: &Self) -> bool {
+        other.is_subset(self)
+    }
+    pub fn is_disjoint(&self, other: &Self) -> bool {
+        !self.items.iter().any(|t| other.contains(t))
+    }
+    pub fn reserve(&mut self, _n: usize) {}
+    pub fn shrink_to_fit(&mut self) {}
+}
+
+impl<T> IntoIterator for VSet<T> {
+    type Item = T;
+    type IntoIter = std::vec::IntoIter<T>;
+    fn into_iter(self) -> Self::IntoIter {
+        self.items.into_iter()
+    }
+}
+
+impl<'a, T> IntoIterator for &'a VSet<T> {
+    type Item = &'a T;
+    type IntoIter = core::slice::Iter<'a, T>;
+    fn into_iter(self) -> Self::IntoIter {
+        self.items.iter()
+    }
+}
+
+impl<T: Ord> Extend<T> for VSet<T> {
+    fn extend<I: IntoIterator<Item = T>>(&mut self, iter: I) {
+        for t in iter {
+            self.insert(t);
+        }
+    }
+}
+
+impl<T: Ord> FromIterator<T> for VSet<T> {
+    fn from_iter<I: IntoIterator<Item = T>>(iter: I) -> Self {
+        let mut s = VSet::new();
+        s.extend(iter);
+        s
+    }
+}
+
+impl<T: Ord, const N: usize> From<[T; N]> for VSet<T> {
+    fn from(a: [T; N]) -> Self {
+        a.into_iter().collect()
+    }
+}
+
+impl<T: Serialize> Serialize for VSet<T> {
+    fn serialize<S: Serializer>(&self, s: S) -> Result<S::Ok, S::Error> {
+        let mut q = s.serialize_seq(Some(self.items.len()))?;
+        for t in &self.items {
+            q.serialize_element(t)?;
+        }
+        q.end()
+    }
+}
